@@ -106,3 +106,26 @@ Theorem C20_cycle_merlin : forall c e r1 e1 ls ok1 r2 e2 ok2 e3 ok3,
   c20_restored (view Merlin (loaded e3)) (view Merlin (current e)) = true.
 Proof. exact merlin_restore_restores. Qed.
 Print Assumptions C20_cycle_merlin.
+
+(* ---- what is left on disk (round g) ---- *)
+From NX Require Import RouterDisk RouterFault.
+(* every successful Restore ends with the restart of dnsmasq and writes nothing after it: what is on disk afterwards is
+   exactly what the running dnsmasq loaded, so the C20_restore_* statements above also hold for what a dnsmasq
+   restarted later (by the owner, by the system) would read *)
+Theorem C20_restore_disk : forall r e e3,
+  r_fw r <> Generic -> (r_fw r = Synology -> r_disabled r = false) ->
+  restore r e = (e3, true) -> loaded e3 = current e3.
+Proof. exact restore_loaded_is_disk. Qed.
+Print Assumptions C20_restore_disk.
+
+(* the restart at the end of setupDNSMasq fails (the drop-in is written, nothing restarted, Setup returns the error):
+   the Restore of the stop that follows still removes the file and restarts dnsmasq; neither what runs nor what is on
+   disk points at the proxy *)
+Theorem C20_failed_restart_then_restore : forall r e lines,
+  match r_fw r with Edgeos | Ubios | Firewalla => True | _ => False end ->
+  exists e3, restore r (file_setup_fault lines e) = (e3, true) /\ conf e3 = None /\
+    loaded e3 = current e3 /\
+    c20_not_pointing (view (r_fw r) (loaded e3)) = true /\
+    c20_not_pointing (view (r_fw r) (current e3)) = true.
+Proof. exact fault_then_restore. Qed.
+Print Assumptions C20_failed_restart_then_restore.
